@@ -550,6 +550,46 @@ def stage_targeted(ctx: Ctx):
                         if lost:
                             ctx.violation(f'string-changed|docstr={docstr}', 'with docstr=False/strict an edit changed the text inside a multi-line string that is not a docstring',
                                           {'before': src, 'after': root.src, 'action': act, 'field': fld, 'idx': idx, 'docstr': docstr, 'changed': lost[:2]})
+    # (d) pure insertions (empty target slice) into multi-line sequences whose elements carry line comments: nothing is replaced, so no comment may disappear
+    seqs = [('x = [\n    a{c0}  # ca\n]\n', 'body[0].value', 'elts', 'b'), ('x = [\n    a,  # ca\n    c{c0}  # cc\n]\n', 'body[0].value', 'elts', 'b'),
+            ('f(a{c0}  # ca\n)\n', 'body[0].value', 'args', 'b'), ('x = {{\n    a: 1,  # ca\n    c: 2{c0}  # cc\n}}\n', 'body[0].value', '_all', 'b: 3'),
+            ('x = (\n    a,  # ca\n    c{c0}  # cc\n)\n', 'body[0].value', 'elts', 'b'), ('def f(\n    a,  # ca\n    c{c0}  # cc\n): pass\n', 'body[0].args', '_all', 'b'),
+            ('from m import (\n    a,  # ca\n    c{c0}  # cc\n)\n', 'body[0]', 'names', 'b'), ('with (\n    a,  # ca\n    c{c0}  # cc\n): pass\n', 'body[0]', 'items', 'b'),
+            ('class K(\n    A,  # ca\n    C{c0}  # cc\n): pass\n', 'body[0]', 'bases', 'B'), ('x = {{\n    a,  # ca\n    c{c0}  # cc\n}}\n', 'body[0].value', 'elts', 'b'),
+            ('match q:\n    case [\n        a,  # ca\n        c{c0}  # cc\n    ]: pass\n', 'body[0].cases[0].pattern', 'patterns', 'b'), ('del (\n    a,  # ca\n    c{c0}  # cc\n)\n', 'body[0].targets[0]', 'elts', 'b')]
+    for tmpl, path, fld, new in seqs:
+        for c0 in ('', ','):
+            src = tmpl.format(c0=c0)
+            try:
+                probe = fst.FST(src, 'exec')
+                n = len(getattr(probe.child_from_path(path), fld))
+            except Exception as e:
+                ctx.broken.append({'kind': 'harness', 'name': 'targeted-d', 'detail': f'{src!r}: {e!r}'[:200]})
+                continue
+            for idx in range(n + 1):
+                for how in ('put_slice', 'insert', 'append'):
+                    if how == 'append' and idx != n:
+                        continue
+                    root = fst.FST(src, 'exec')
+                    node = root.child_from_path(path)
+                    try:
+                        if how == 'put_slice':
+                            node.put_slice(new, idx, idx, fld, one=True)
+                        elif how == 'insert':
+                            getattr(node, fld).insert(new, idx)
+                        else:
+                            getattr(node, fld).append(new)
+                    except Exception:
+                        continue
+                    ctx.tick(('targeted-d', src, idx, how), 'op:targeted-insert-multiline-seq')
+                    have = comments(root.src)
+                    want = comments(src)
+                    if have is None:
+                        ctx.violation('text|targeted|unparsable', 'the edited source no longer tokenizes', {'before': src, 'after': root.src, 'action': how})
+                    elif have != want:
+                        where = 'at-end' if idx == n else 'inside'
+                        ctx.violation(f'comment-lost|insert-into-multiline-sequence|{where}', 'a pure insertion (nothing replaced) into a multi-line sequence removed the line comment of a neighbouring element',
+                                      {'before': src, 'after': root.src, 'action': how, 'field': fld, 'idx': idx, 'lost': [c for c in want if c not in have]})
     # (b)
     lines = ['d = {{"ключ": {E}, "k": [y, z]}}  # коммент', 'r = "naïve café" + {E} * w', 'f("日本語", {E}, kw={E2})', 'ü = [é, {E}, "ö"]']
     for tmpl in lines:
